@@ -70,13 +70,13 @@ func vgS_TestPrivateKey(priv []byte) {
 
 // taintedReader hands out a fixed stream whose bytes are marked undefined at
 // the moment they are delivered (the nonce/key candidates are the secret).
-type taintedReader struct {
+type zvTaintedReader struct {
 	data  []byte
 	off   int
 	taint bool
 }
 
-func (t *taintedReader) Read(p []byte) (int, error) {
+func (t *zvTaintedReader) Read(p []byte) (int, error) {
 	n := copy(p, t.data[t.off:])
 	t.off += n
 	if t.taint {
@@ -88,7 +88,7 @@ func (t *taintedReader) Read(p []byte) (int, error) {
 //go:noinline
 func vgL2_SignHashed_d_tainted(priv, e, stream []byte) {
 	utils.VgPoison(priv)
-	r, s, err := SignHashed(&taintedReader{data: stream}, priv, e)
+	r, s, err := SignHashed(&zvTaintedReader{data: stream}, priv, e)
 	utils.VgUnpoison(priv)
 	utils.VgUnpoison(r)
 	utils.VgUnpoison(s)
@@ -100,7 +100,7 @@ func vgL2_SignHashed_d_tainted(priv, e, stream []byte) {
 
 //go:noinline
 func vgL2_SignHashed_k_tainted(priv, e, stream []byte) {
-	r, s, err := SignHashed(&taintedReader{data: stream, taint: true}, priv, e)
+	r, s, err := SignHashed(&zvTaintedReader{data: stream, taint: true}, priv, e)
 	utils.VgUnpoison(r)
 	utils.VgUnpoison(s)
 	if err != nil {
@@ -111,7 +111,7 @@ func vgL2_SignHashed_k_tainted(priv, e, stream []byte) {
 
 //go:noinline
 func vgL2_GenerateKey_stream_tainted(stream []byte) {
-	priv, x, y, err := GenerateKey(&taintedReader{data: stream, taint: true})
+	priv, x, y, err := GenerateKey(&zvTaintedReader{data: stream, taint: true})
 	utils.VgUnpoison(priv)
 	utils.VgUnpoison(x)
 	utils.VgUnpoison(y)
@@ -197,7 +197,7 @@ func TestVgC08SM2SignD(t *testing.T) {
 //go:noinline
 func vgL2_SignHashed_global_rand_reader_k_tainted(priv, e, stream []byte) {
 	saved := crand.Reader
-	crand.Reader = &taintedReader{data: stream, taint: true}
+	crand.Reader = &zvTaintedReader{data: stream, taint: true}
 	r, s, err := SignHashed(crand.Reader, priv, e)
 	crand.Reader = saved
 	utils.VgUnpoison(r)
@@ -211,7 +211,7 @@ func vgL2_SignHashed_global_rand_reader_k_tainted(priv, e, stream []byte) {
 //go:noinline
 func vgL2_GenerateKey_global_rand_reader_tainted(stream []byte) {
 	saved := crand.Reader
-	crand.Reader = &taintedReader{data: stream, taint: true}
+	crand.Reader = &zvTaintedReader{data: stream, taint: true}
 	priv, x, y, err := GenerateKey(crand.Reader)
 	crand.Reader = saved
 	utils.VgUnpoison(priv)
@@ -253,7 +253,7 @@ func TestVgC08SM2SignK(t *testing.T) {
 //go:noinline
 func vgL2_Sign_d_tainted(id, px, py, priv, msg, stream []byte) {
 	utils.VgPoison(priv)
-	r, s, err := Sign(id, px, py, &taintedReader{data: stream}, priv, msg)
+	r, s, err := Sign(id, px, py, &zvTaintedReader{data: stream}, priv, msg)
 	utils.VgUnpoison(priv)
 	utils.VgUnpoison(r)
 	utils.VgUnpoison(s)
@@ -265,7 +265,7 @@ func vgL2_Sign_d_tainted(id, px, py, priv, msg, stream []byte) {
 
 //go:noinline
 func vgL2_SignZa_k_tainted(priv, za, msg, stream []byte) {
-	r, s, err := SignZa(&taintedReader{data: stream, taint: true}, priv, za, msg)
+	r, s, err := SignZa(&zvTaintedReader{data: stream, taint: true}, priv, za, msg)
 	utils.VgUnpoison(r)
 	utils.VgUnpoison(s)
 	if err != nil {
@@ -277,7 +277,7 @@ func vgL2_SignZa_k_tainted(priv, za, msg, stream []byte) {
 //go:noinline
 func vgL2_SignHashed_short_key_d_tainted(priv, e, stream []byte) {
 	utils.VgPoison(priv)
-	r, s, err := SignHashed(&taintedReader{data: stream}, priv, e)
+	r, s, err := SignHashed(&zvTaintedReader{data: stream}, priv, e)
 	utils.VgUnpoison(priv)
 	utils.VgUnpoison(r)
 	utils.VgUnpoison(s)
